@@ -341,7 +341,10 @@ def _to_np(M):
 
 class DenseGPmp:
     """Same as DenseGP in mpmath arithmetic (MP_DPS digits); inputs may be mpmath matrices or float arrays,
-    outputs are float ndarrays (correctly rounded results of the exact expressions on the given inputs)."""
+    outputs are float ndarrays (correctly rounded results of the exact expressions on the given inputs).
+
+    Small hand-written list-based Cholesky / triangular inverse (n <= ~10) — mpmath's generic matrix class is
+    several times slower; falls back to mpmath's LU inverse if a pivot is not positive."""
 
     mp = True
 
@@ -351,69 +354,131 @@ class DenseGPmp:
             n = K.rows
             self.n = n
             da = [mpmath.mpf(float(v)) for v in np.broadcast_to(np.asarray(diag_add, dtype=float), (n,))]
-            self.Amp = K.copy()
+            A = [[K[i, j] for j in range(n)] for i in range(n)]
             for i in range(n):
-                self.Amp[i, i] += da[i]
-            self.Rmp = _to_mp_matrix(np.asarray(R, dtype=float).reshape(n, -1)) if not isinstance(R, mpmath.matrix) else R
-            self.Ainv_mp = self.Amp ** -1
-            self.alpha_mp = self.Ainv_mp * self.Rmp
-            self.A = _to_np(self.Amp)
-            self.R = _to_np(self.Rmp)
-            self.alpha = _to_np(self.alpha_mp)
-            self.Ainv = _to_np(self.Ainv_mp)
+                A[i][i] = A[i][i] + da[i]
+            if isinstance(R, mpmath.matrix):
+                Rl = [[R[i, c] for c in range(R.cols)] for i in range(n)]
+            else:
+                Rf = np.asarray(R, dtype=float).reshape(n, -1)
+                Rl = [[mpmath.mpf(float(v)) for v in row] for row in Rf]
+            m = len(Rl[0]) if n else 0
+            self._A, self._R, self.m = A, Rl, m
+            Ainv, logdet = self._chol_inverse(A, n)
+            if Ainv is None:
+                Amat = mpmath.matrix(A)
+                inv = Amat ** -1
+                Ainv = [[inv[i, j] for j in range(n)] for i in range(n)]
+                logdet = mpmath.log(mpmath.det(Amat))
+            self._Ainv, self._logdet_mp = Ainv, logdet
+            self._alpha = [[mpmath.fdot(Ainv[i], [Rl[k][c] for k in range(n)]) for c in range(m)] for i in range(n)]
+            self.A = np.array([[float(v) for v in row] for row in A], dtype=float).reshape(n, n)
+            self.R = np.array([[float(v) for v in row] for row in Rl], dtype=float).reshape(n, m)
+            self.alpha = np.array([[float(v) for v in row] for row in self._alpha], dtype=float).reshape(n, m)
+            self.Ainv = np.array([[float(v) for v in row] for row in Ainv], dtype=float).reshape(n, n)
+            self._logdet = float(logdet)
+
+    @staticmethod
+    def _chol_inverse(A, n):
+        zero = mpmath.mpf(0)
+        L = [[zero] * n for _ in range(n)]
+        for j in range(n):
+            s = A[j][j] - mpmath.fdot(L[j][:j], L[j][:j])
+            if not s > 0:
+                return None, None
+            L[j][j] = mpmath.sqrt(s)
+            for i in range(j + 1, n):
+                L[i][j] = (A[i][j] - mpmath.fdot(L[i][:j], L[j][:j])) / L[j][j]
+        # M = L^{-1} (lower triangular)
+        M = [[zero] * n for _ in range(n)]
+        for j in range(n):
+            M[j][j] = 1 / L[j][j]
+            for i in range(j + 1, n):
+                M[i][j] = -mpmath.fdot(L[i][j:i], [M[k][j] for k in range(j, i)]) / L[i][i]
+        Ainv = [[zero] * n for _ in range(n)]
+        for i in range(n):
+            for j in range(i + 1):
+                v = mpmath.fdot([M[k][i] for k in range(i, n)], [M[k][j] for k in range(i, n)])
+                Ainv[i][j] = v
+                Ainv[j][i] = v
+        logdet = 2 * mpmath.fsum(mpmath.log(L[i][i]) for i in range(n))
+        return Ainv, logdet
+
+    # mpmath-matrix views (kept for callers that want exact objects)
+    @property
+    def Amp(self):
+        return mpmath.matrix(self._A)
+
+    @property
+    def Ainv_mp(self):
+        return mpmath.matrix(self._Ainv)
+
+    @property
+    def alpha_mp(self):
+        return mpmath.matrix(self._alpha)
 
     def cond(self):
         return float(np.linalg.norm(self.A, 2) * np.linalg.norm(self.Ainv, 2))
 
+    def _wt(self, Ks):
+        """A^{-1} Ks as list of rows (n x nt) of mpf, and Ks columns."""
+        Ks = _to_mp_matrix(Ks)
+        nt = Ks.cols
+        cols = [[Ks[i, t] for i in range(self.n)] for t in range(nt)]
+        Wt = [[mpmath.fdot(self._Ainv[i], cols[t]) for t in range(nt)] for i in range(self.n)]
+        return Wt, cols, nt
+
     def weights(self, Ks):
         with mpmath.workdps(MP_DPS):
-            return _to_np((self.Ainv_mp * _to_mp_matrix(Ks)).T)
+            Wt, _, nt = self._wt(Ks)
+            return np.array([[float(Wt[i][t]) for i in range(self.n)] for t in range(nt)], dtype=float).reshape(nt, self.n)
 
     def weights_var(self, Ks, kss):
         with mpmath.workdps(MP_DPS):
-            Ks = _to_mp_matrix(Ks)
-            Wt = self.Ainv_mp * Ks
-            kss = [mpmath.mpf(v) if not isinstance(v, mpmath.mpf) else v for v in list(kss)]
-            var = np.array([float(kss[t] - sum(Wt[i, t] * Ks[i, t] for i in range(self.n)))
-                            for t in range(Ks.cols)], dtype=float)
-            return _to_np(Wt.T), var
+            Wt, cols, nt = self._wt(Ks)
+            kss = [v if isinstance(v, mpmath.mpf) else mpmath.mpf(float(v)) for v in list(kss)]
+            var = np.array([float(kss[t] - mpmath.fdot([Wt[i][t] for i in range(self.n)], cols[t]))
+                            for t in range(nt)], dtype=float)
+            W = np.array([[float(Wt[i][t]) for i in range(self.n)] for t in range(nt)], dtype=float).reshape(nt, self.n)
+            return W, var
 
     def predict(self, Ks, kss, mt):
         with mpmath.workdps(MP_DPS):
-            Ks = _to_mp_matrix(Ks)
-            Wt = self.Ainv_mp * Ks                       # (n, nt)
-            nt = Ks.cols
-            mt = [mpmath.mpf(v) if not isinstance(v, mpmath.mpf) else v for v in list(mt)]
-            kss = [mpmath.mpf(v) if not isinstance(v, mpmath.mpf) else v for v in list(kss)]
-            mean = Wt.T * self.Rmp
-            m = self.Rmp.cols
-            mean_np = np.array([[float(mean[t, j] + mt[t]) for j in range(m)] for t in range(nt)], dtype=float)
-            var = np.array([float(kss[t] - sum(Wt[i, t] * Ks[i, t] for i in range(self.n))) for t in range(nt)],
-                           dtype=float)
-            return mean_np, var
+            Wt, cols, nt = self._wt(Ks)
+            mt = [v if isinstance(v, mpmath.mpf) else mpmath.mpf(float(v)) for v in list(mt)]
+            kss = [v if isinstance(v, mpmath.mpf) else mpmath.mpf(float(v)) for v in list(kss)]
+            mean = np.array([[float(mpmath.fdot(cols[t], [self._alpha[i][c] for i in range(self.n)]) + mt[t])
+                              for c in range(self.m)] for t in range(nt)], dtype=float).reshape(nt, self.m)
+            var = np.array([float(kss[t] - mpmath.fdot([Wt[i][t] for i in range(self.n)], cols[t]))
+                            for t in range(nt)], dtype=float)
+            return mean, var
 
     def post_cov(self, Ks, Ktt):
         with mpmath.workdps(MP_DPS):
-            Ks = _to_mp_matrix(Ks)
-            return _to_np(_to_mp_matrix(Ktt) - Ks.T * (self.Ainv_mp * Ks))
+            Wt, cols, nt = self._wt(Ks)
+            Ktt = _to_mp_matrix(Ktt)
+            out = np.empty((nt, nt))
+            for s_ in range(nt):
+                ws = [Wt[i][s_] for i in range(self.n)]
+                for t in range(s_, nt):
+                    v = float(Ktt[s_, t] - mpmath.fdot(ws, cols[t]))
+                    out[s_, t] = v
+                    out[t, s_] = v
+            return out
 
     @property
     def logdet(self):
-        if getattr(self, "_logdet", None) is None:
-            with mpmath.workdps(MP_DPS):
-                self._logdet_mp = mpmath.log(mpmath.det(self.Amp))
-                self._logdet = float(self._logdet_mp)
         return self._logdet
 
     def quad(self):
         with mpmath.workdps(MP_DPS):
-            return np.array([float(sum(self.Rmp[i, c] * self.alpha_mp[i, c] for i in range(self.n)))
-                             for c in range(self.Rmp.cols)], dtype=float)
+            return np.array([float(mpmath.fdot([self._R[i][c] for i in range(self.n)],
+                                               [self._alpha[i][c] for i in range(self.n)]))
+                             for c in range(self.m)], dtype=float)
 
     def nlml(self, col=0):
         with mpmath.workdps(MP_DPS):
-            self.logdet
-            quad = sum(self.Rmp[i, col] * self.alpha_mp[i, col] for i in range(self.n))
+            quad = mpmath.fdot([self._R[i][col] for i in range(self.n)], [self._alpha[i][col] for i in range(self.n)])
             return float((self.n * mpmath.log(2 * mpmath.pi) + self._logdet_mp + quad) / 2)
 
 
